@@ -52,7 +52,10 @@
       `while let PAT = e { … }` evaluates `e` at the start of every round (fuelled like `while`);
     * `std::time::Duration` is a `Nat` of nanoseconds (`Duration::MAX`, `from_secs`, `from_millis` as in std;
       comparison, copy, checked `+` / `-`); `BTreeMap` / `HashMap` with integer keys are key-sorted association lists
-      (section "BTreeMap" below; HashMap iteration is rejected); `let x = map.entry(k).or_insert_with(|| e)` makes
+      (section "BTreeMap" below; HashMap iteration is rejected), a `BTreeSet` of integers is the ascending list of its
+      elements; `if let Entry::Vacant(e) = map.entry(k) { … e.insert(v) … }` is `if !map.contains_key(k) { … map.insert(k, v) … }`;
+      `pop_first()` yields the first binding and keeps the rest; `e?` in a fn returning `Option` is `try_option`;
+      `let x = map.entry(k).or_insert_with(|| e)` makes
       `x` an alias of the map entry, so does `let Some(x) = map.get_mut(&k) else { … }`;
       `for (&k, v) in btree.iter_mut()` is a loop over the positions `0..len` of the association list in which `k` is
       the key and `v` an alias of the value of the `i`-th binding (keys cannot change, so the order is preserved);
@@ -350,6 +353,11 @@ where
   go (i : Nat) : List α → List (Nat × α)
     | [] => []
     | x :: r => (i, x) :: go (i + 1) r
+/-- `o?` in a fn returning `Option`: the value of `Some`, or `return None` (`r` is what the fn then returns) -/
+def try_option (o : Option α) (r : ρ) : Exec ε ρ α :=
+  match o with
+  | some x => .val x
+  | none => .ret r
 /-- `o.unwrap()` -/
 def unwrap (o : Option α) (site : String) : Exec ε ρ α :=
   match o with
@@ -403,7 +411,30 @@ def index {ε ρ : Type} (m : Map α) (k : Nat) (site : String) : Exec ε ρ α 
   match find? m k with
   | some v => .val v
   | none => .panic site
+/-- `first_key_value()` / the binding `pop_first()` returns: the one with the smallest key -/
+def first? (m : Map α) : Option (Nat × α) := m.head?
+/-- the map after `pop_first()` -/
+def without_first (m : Map α) : Map α := m.tail
 end Map
+
+/-! ### `BTreeSet<uN>`: the ascending list of its elements -/
+abbrev Set := List Nat
+
+namespace Set
+/-- `contains(&k)` -/
+def contains (s : Set) (k : Nat) : Bool := s.elem k
+/-- `insert(k)` (no effect when `k` is present) -/
+def insert : Set → Nat → Set
+  | [], k => [k]
+  | k' :: r, k =>
+    if k < k' then k :: k' :: r
+    else if k = k' then k' :: r
+    else k' :: insert r k
+/-- `remove(&k)` -/
+def remove : Set → Nat → Set
+  | [], _ => []
+  | k' :: r, k => if k' = k then r else k' :: remove r k
+end Set
 
 /-- `std::time::Duration` is its number of nanoseconds; `Duration::MAX` = `u64::MAX` s + 999_999_999 ns.
     Only comparison and copy are supported by the translator. -/
